@@ -106,6 +106,12 @@ static int cur = -1;
 static FILE* OUT;
 static jmp_buf jb;
 static volatile int trapCode, trapCount;
+#ifdef VERIF_WRAP_REALLOC
+/* allocation-failure injection (link with -Wl,--wrap=realloc): while armed, every realloc of 64 KiB or more fails */
+void* __real_realloc(void* p, size_t n);
+static volatile int failRealloc, failedReallocs;
+void* __wrap_realloc(void* p, size_t n) { if (failRealloc && n >= 65536u) { failedReallocs++; return NULL; } return __real_realloc(p, n); }
+#endif
 void trap(Trap t) { trapCode = (int)t; trapCount++; longjmp(jb, 1); }
 static const char* trapName(int t) {
   switch (t) { case trapUnreachable: return "unreachable"; case trapDivByZero: return "divzero";
@@ -195,6 +201,16 @@ int main(int argc, char** argv) {
       else fprintf(OUT, "%d I %d fail:%s\n", step, k, trapName(trapCode));
       break; }
     case 'c': { U64 a[256]; int i; if (nt - 3 > 256) { fprintf(stderr, "driver: too many call arguments\n"); return 2; } for (i = 3; i < nt; i++) a[i - 3] = strtoull(tok[i], NULL, 0); doCall(step, atoi(tok[1]), atoi(tok[2]), a, nt - 3); break; }
+    case 'z': { /* z <inst> <fk> <args>: the call runs while large reallocations fail (the host is out of memory) */
+      U64 a[16]; int i, inj = -1; for (i = 3; i < nt && i < 19; i++) a[i - 3] = strtoull(tok[i], NULL, 0);
+#ifdef VERIF_WRAP_REALLOC
+      failedReallocs = 0; failRealloc = 1;
+#endif
+      doCall(step, atoi(tok[1]), atoi(tok[2]), a, nt - 3);
+#ifdef VERIF_WRAP_REALLOC
+      failRealloc = 0; inj = failedReallocs;
+#endif
+      fprintf(OUT, "%d z injected=%d\n", step, inj); break; }
     case 'x': { int inst = atoi(tok[1]), fk = atoi(tok[2]), ns = nt - 3, idx[8] = {0}, s[8], i, k; U64 a[8];
       for (i = 0; i < ns; i++) s[i] = atoi(tok[3 + i]);
       if (ns == 0) { doCall(step, inst, fk, a, 0); break; }
@@ -435,14 +451,20 @@ def build_and_run(w2c2, wasm_bytes, plan, script, d, name='m', opts=(), cc='gcc'
     return ('ok', r.out.splitlines(), r)
 
 
-def run_ref(wasm_bytes, plan, script, d, name='m', timeout=300):
+def run_ref(wasm_bytes, plan, script, d, name='m', timeout=300, cfg_extra=None):
     os.makedirs(d, exist_ok=True)
     wp = os.path.join(d, name + '.ref.wasm')
     with open(wp, 'wb') as f:
         f.write(wasm_bytes)
     cp = os.path.join(d, name + '.cfg.json')
     with open(cp, 'w') as f:
-        f.write(plan.config_json())
+        if cfg_extra:
+            import json
+            c = json.loads(plan.config_json())
+            c.update(cfg_extra)
+            f.write(json.dumps(c))
+        else:
+            f.write(plan.config_json())
     sp = os.path.join(d, name + '.script.txt')
     with open(sp, 'w') as f:
         f.write(script)
